@@ -1,6 +1,6 @@
 ------------------------------- MODULE MC_Group -------------------------------
 (* Groups nested to MAXDEPTH with leaf members at the boxes BOXES; <= DEPTH additions.  *)
-EXTENDS Geometry, Json
+EXTENDS Geometry, Json, SequencesExt
 CONSTANTS DEPTH, MAXDEPTH, NBOX
 VARIABLES st, hist
 \* (the third box lies entirely at negative coordinates: a group holding only such members has its far corner left of / above the origin)
@@ -9,8 +9,14 @@ Boxes == << [x |-> 0, y |-> 0, cx |-> 1, cy |-> 1], [x |-> 2, y |-> 3, cx |-> 2,
 RECURSIVE DepthOf(_, _)
 DepthOf(N, gid) == IF gid = 0 THEN 0 ELSE 1 + DepthOf(N, (CHOOSE n \in NodeSet(N) : n.id = gid).parent)
 Groups(N) == {n.id : n \in {m \in NodeSet(N) : m.grp}}
-Init == st = <<>> /\ hist = <<>>
-Do(a) == Len(hist) < DEPTH /\ st' = GrpImplStep(st, a) /\ hist' = Append(hist, a)
+\* histories start from the empty slide, and from a slide that already holds nested groups (built by the driver with the same four
+\* calls): an outer group holding an inner group with one member, and a second member beside it - every two further actions from there
+A0(op, parent, b) == [op |-> op, parent |-> parent, x |-> b.x, y |-> b.y, cx |-> b.cx, cy |-> b.cy, ids |-> {}]
+Prefix == << A0("group", 0, Zero), A0("group", 1, Zero), A0("leaf", 2, Boxes[2]), A0("leaf", 1, Boxes[1]) >>
+Init == \/ st = <<>> /\ hist = <<>>
+        \/ st = FoldLeft(LAMBDA acc, a : GrpImplStep(acc, a), <<>>, Prefix) /\ hist = Prefix
+Nested == Len(hist) >= 4 /\ SubSeq(hist, 1, 4) = Prefix
+Do(a) == Len(hist) < (IF Nested THEN 6 ELSE DEPTH) /\ st' = GrpImplStep(st, a) /\ hist' = Append(hist, a)
 AddLeaf == \E g \in Groups(st) \cup {0} : \E b \in 1..NBOX :
              Do([op |-> "leaf", parent |-> g, x |-> Boxes[b].x, y |-> Boxes[b].y, cx |-> Boxes[b].cx, cy |-> Boxes[b].cy, ids |-> {}])
 AddGroup == \E g \in Groups(st) \cup {0} : DepthOf(st, g) < MAXDEPTH /\
